@@ -16,7 +16,7 @@ fn poisons(rng: &mut Rng) -> Vec<Vec<u8>> {
     let mut nasty = vec![0x00, 0x22]; nasty.extend(vec![7u8; 34]); v.push(nasty);                       // v0 witness program of illegal length 34
     v.push([vec![0x51, 0x20], vec![9u8; 31]].concat());                                                   // v1 lookalike, one byte short
     v.push((0..3000).flat_map(|i| vec![0x01, i as u8]).collect());                                        // thousands of pushes
-    v.push(rng.bytes(520)); v.push(rng.bytes(10_001));
+    v.push(rng.bytes(520)); v.push(rng.bytes(10_001)); v.push(vec![0xEE; 70_000]);                        // (a length beyond u16: 5-byte CompactSize)
     if thorough { v.push(rng.bytes(100_000)); for _ in 0..60 { let n = rng.below(90) as usize; v.push(rng.bytes(n)); } }
     for op in [0x00u8, 0x4f, 0x50, 0x62, 0x65, 0x6a, 0x7e, 0x89, 0xb1, 0xba, 0xfe] { let n = rng.below(20) as usize; let mut s = vec![op]; s.extend(rng.bytes(n)); v.push(s); }
     v
@@ -86,7 +86,7 @@ fn c14_hostile_field_content() {
             let benign = p2pkh_script(&[0x46; 20]);
             let base = match observe(&build(if place == 0 { &benign[..] } else { &[0x51][..] }, place), coin, place) { Ok(b) => b, Err(m) => { fail(suite, "C14:baseline_runs", &format!("{} place {}", coin, place), &m, "Ok"); continue; } };
             for (i, p) in ps.iter().enumerate() {
-                if !thorough && place > 0 && i % 4 != 0 { continue; }
+                if !thorough && place > 0 && i % 4 != 0 && p.len() < 65_536 { continue; }
                 cases += 1;
                 let inp = format!("{} field={} content={}", coin, ["scriptPubKey", "scriptSig", "witness item"][place], if p.len() > 40 { format!("{}..({} bytes)", hex(&p[..40]), p.len()) } else { hex(p) });
                 let chain = build(p, place);
